@@ -66,6 +66,8 @@ def cells(tier):
         out.append({'kind': 'loadann', 'backend': 'disk', 'K': 40})
         out.append({'kind': 'loadann', 'backend': 'dict', 'K': 8,
                     'snapshot': 1, 'extra': 3})
+        out.append({'kind': 'loadflush', 'backend': 'redis', 'K': 10})
+        out.append({'kind': 'loadflush', 'backend': 'disk', 'K': 24})
         for b in ('shelf', 'disk', 'redis'):
             out.append({'kind': 'restart', 'backend': b})
         # bounded store pools
@@ -585,6 +587,59 @@ def run_loadann(cell):
     api.observe('calls', [[c['tag'], c['attempts']] for c in w.relay.calls])
     w.check_not_early(info, ids)
     w.check_not_forgotten(info, ids)
+
+
+def run_loadflush(cell):
+    """flush() called inside the k-th storage operation of the start-up
+    load (every k): messages listed before and after it are all attempted -
+    the former at once, the latter when due"""
+    import gevent
+    backend = cell['backend']
+    w = World(cell, lambda tag: 0)
+    store = w.store
+    ids = {}
+    dues = {}
+
+    def prep():
+        for i in range(cell.get('extra', 3)):
+            tag = 'x%d' % i
+            dues[tag] = 10 + i
+            ids[tag] = store.write(qc.make_envelope(tag, 's@z', ['a@x']),
+                                   dues[tag])
+    gevent.spawn(prep)
+    qc.run_until_quiescent()
+    if backend == 'redis':
+        w.sub.lists.pop(store.queue_key, None)
+    k = api.choice('k', cell['K'])
+    state = {}
+
+    def event():
+        def go():
+            state['flushed_at'] = qc.now()
+            state['waiting'] = set(e[1] for e in w.queue.queued)
+            w.queue.flush()
+        gevent.spawn(go)
+    qc.INJECT[qc.YIELDS[0] + k] = event
+    w.queue.start()
+    qc.run_until_quiescent()
+    w.queue.kill()
+    info = dict(backend=backend, kind='loadflush', k=k)
+    api.observe('calls', [[c['tag'], c['attempts']] for c in w.relay.calls])
+    left = w.stored_ids()
+    for tag, qid in ids.items():
+        calls = [c for c in w.relay.calls if c['tag'] == tag]
+        if not api.prove(len(calls) == 1 and qid not in left,
+                         'message-forgotten', tag=tag, attempts=len(calls),
+                         **info):
+            continue
+        start = calls[0]['start']
+        if qid in state.get('waiting', ()):
+            api.prove(start == state['flushed_at'], 'flushed-message-not-'
+                      'attempted-at-once', tag=tag, **info)
+        else:
+            # listed after the flush: attempted when due, not before
+            api.prove(start == dues[tag], 'attempted-early-or-late', tag=tag,
+                      start=start, **info)
 
 
 def classify(cell, inputs, failure):
